@@ -154,8 +154,16 @@ def run(chk, n_random):
             desc = {"files": {str(k): v for k, v in fsd.items()}, "mains": mains, "observed": o, "model_flags": list(flat)}
             if any(r[0] == "exception" for r in o["results"]):
                 chk.violation("files-exc-%d" % gi, dict(desc, kind="FileProcessor let an unexpected exception escape"))
+            elif list(flat) != [] and flat[1] == 0:
+                # the outcomes differ. The model's outcome is the specified one (props/C16.v: a successful result is the include
+                # tree of the file, failures are a genuinely missing file or a file met again while in progress), so this
+                # arrangement of files is a concrete input on which the real processor breaks the property
+                chk.violation("files-%d" % gi, dict(desc, kind="FileProcessor's outcome for these files differs from the specified one "
+                                                                 "(include tree of each main file, or the missing / cyclic failure): "
+                                                                 "observed %s" % json.dumps([r[:2] if r[0] != "ok" else "ok" for r in o["results"]])))
             elif list(flat) != []:
                 chk.violation("filecorr-%d" % gi, dict(desc, kind="model/implementation correspondence broken (FileProcessor vs model/PcFiles.v): "
+                                                                   "same outcomes, other order of handing files to the content processor; "
                                                                    "flags = [97; results equal; parse log equal]"),
                               "no-failing-input-found", match=False)
             # property oracles on the real results
